@@ -23,9 +23,9 @@ func init() {
 		Exhaustive: true,
 		Scope: func(tier string) string {
 			if tier == "thorough" {
-				return "exhaustive length<=5 (13-15 symbol alphabets) per function + 200k random strings of <=40 symbols per function"
+				return "exhaustive length<=5 (13-15 symbol alphabets) per function + every single byte (alone and in context) per function + every rune < U+20000 through caseFold/toLinkRef + 200k random strings of <=40 symbols per function"
 			}
-			return "exhaustive length<=4 (13-15 symbol alphabets) per function + 20k random strings of <=24 symbols per function"
+			return "exhaustive length<=4 (13-15 symbol alphabets) per function + every single byte (alone and in context) per function + every rune < U+3000 and every 7th up to U+20000 through caseFold/toLinkRef + 20k random strings of <=24 symbols per function"
 		},
 	})
 }
@@ -69,7 +69,31 @@ func genUtil(tier string, rng *RNG, emit func(Case)) {
 			emit(Case{Op: op, Args: []string{hx(randString(rng, alpha, maxLen))}})
 		}
 	}
+	// every single byte, alone and between two letters, through every string function (per-byte table slips
+	// such as "Z is not folded" are invisible to the small alphabets above)
+	for _, op := range utilStringOps {
+		for c := 0; c < 256; c++ {
+			emit(Case{Op: op, Args: []string{hx([]byte{byte(c)})}})
+			emit(Case{Op: op, Args: []string{hx([]byte{'a', byte(c), 'B'})}})
+		}
+	}
+	// every rune (thorough) / a dense prefix plus a stride (quick) through the case-folding functions
+	for r := 0x80; r < 0x20000; r++ {
+		if tier != "thorough" && r >= 0x3000 && r%7 != 0 {
+			continue
+		}
+		if r >= 0xd800 && r <= 0xdfff {
+			continue
+		}
+		enc := []byte(string(rune(r)))
+		emit(Case{Op: "caseFold", Args: []string{hx(enc)}})
+		emit(Case{Op: "toLinkRef", Args: []string{hx(append(append([]byte("x "), enc...), 'Y'))}})
+	}
 	for _, rr := range []string{"0", "1"} {
+		for c := 0; c < 256; c++ {
+			emit(Case{Op: "urlEscape", Args: []string{hx([]byte{byte(c)}), rr}})
+			emit(Case{Op: "urlEscape", Args: []string{hx([]byte{'a', byte(c), 'b'}), rr}})
+		}
 		enumStrings(utilAlphabets["urlEscape"], n, func(b []byte) { emit(Case{Op: "urlEscape", Args: []string{hx(b), rr}}) })
 		for i := 0; i < nrand; i++ {
 			alpha := utilAlphabets["urlEscape"]
